@@ -8,6 +8,17 @@
   (`to_model` returns None), and the host answers `ModelScope:*` if one slips through, which shows up as a
   disagreement.
 
+  REFLECTIVE OBJECTS.  A generator object (`CV.gen`) can be a value of an expression.  `get_member` refuses every
+  member of it, but `_SafeFormatter.get_field` only refuses underscore ATTRIBUTE names, and `gi_frame`, `gi_code`,
+  `f_globals`, `f_locals`, `f_builtins`, `f_code`, `co_filename` … are public names: on the current code
+  `'{0.gi_frame.f_globals[__builtins__][getattr]}'.format(g)` succeeds and returns text.  The host mirrors that:
+  field traversal walks from a generator to its frame (`CV.refl .frame`), code object (`.refl .code`) and the three
+  namespaces of the frame (`.refl (.ns _)`, plain dicts whose KEYS may be underscore names — index steps are not
+  vetted); what a namespace or a code object holds is `CV.opq` (an object this host does not describe), and text
+  rendered from any of them is not predicted: the result of such a format call is `CV.ostr` ("some str").  The
+  attribute tables are those of CPython 3.12 (`genAttr`, `frameAttr`, `codeAttr`); which keys the namespaces have is
+  part of the host description (`NsDesc`, shipped by the harness from the real generator).
+
   `get_member` hands out `_safe_format` / `_safe_format_map` (a `string.Formatter` whose `get_field` refuses
   underscore attributes) instead of `str.format` / `str.format_map`.  Field traversal (`{0.attr[key]!r}`) is
   modelled: the attribute reads it performs are HOST-internal (they do not go through the evaluator's
@@ -23,6 +34,16 @@ import GtModel.Model.Expr
 namespace GtModel.Expr
 open Lean
 
+/-- the three namespaces of a frame -/
+inductive NsKind where
+  | globals | locals | builtins
+deriving Repr, Inhabited, DecidableEq
+
+/-- reflective objects reachable from a generator by PUBLIC attribute names -/
+inductive RKind where
+  | frame | code | ns (w : NsKind)
+deriving Repr, Inhabited, DecidableEq
+
 inductive CV where
   | int (i : Int) | bool (b : Bool) | str (s : String) | none
   | list (xs : List CV) | tuple (xs : List CV) | dict (kvs : List (CV × CV))
@@ -32,7 +53,10 @@ inductive CV where
   | strfn (name : String)                    -- `_safe_format` / `_safe_format_map`
   | builtin (name : String)                  -- whitelisted builtin (opaque)
   | float (raw : String)                     -- float literal (opaque)
-  | gen                                      -- a generator object (one of `_REFLECTIVE_TYPES`), opaque
+  | gen                                      -- a fresh generator object (one of `_REFLECTIVE_TYPES`)
+  | refl (k : RKind)                         -- its frame / code object / a namespace dict of the frame
+  | opq                                      -- a Python object this host does not describe (a value of a namespace, …)
+  | ostr                                     -- a `str` whose text this host does not predict (rendered from the above)
 deriving Repr, Inhabited
 
 inductive MKind where
@@ -48,8 +72,18 @@ structure SentDesc where
   meths : List (String × MKind)
 deriving Repr, Inhabited
 
+/-- the key sets of the namespaces of the generator's frame, and whether `f_globals['__builtins__']` is the very
+    dict `f_builtins` (true for the globals of an imported module) -/
+structure NsDesc where
+  globals : List String := []
+  locals : List String := []
+  builtins : List String := []
+  gbIsBuiltins : Bool := false
+deriving Repr, Inhabited
+
 structure HostDesc where
   sents : List SentDesc
+  ns : NsDesc := {}
 deriving Repr, Inhabited
 
 /-- Host state of the concrete host: attribute reads performed INSIDE host operations (format traversal). -/
@@ -131,6 +165,12 @@ def joinSep (sep : String) : List String → String
   | [x] => x
   | x :: xs => x ++ sep ++ joinSep sep xs
 
+/-- Text the host does not predict (`repr` of a generator / frame / code object / namespace / undescribed object)
+    is rendered as this marker; a format result that contains it is `CV.ostr`.  U+FFFF is not printable, and the
+    harness only ships printable strings, so no string of a shipped case contains it. -/
+def opaqueMark : Char := '\uFFFF'
+def opaqueText : String := String.singleton opaqueMark
+
 mutual
   def cvRepr : CV → Except Exc String
     | .int i => .ok (toString i)
@@ -146,6 +186,10 @@ mutual
     | .dict kvs => do let rs ← cvReprKVs kvs; .ok ("{" ++ joinSep ", " rs ++ "}")
     | .sent id => .ok ("<S" ++ toString id ++ ">")
     | .smeth id n => .ok ("<S" ++ toString id ++ "." ++ n ++ ">")
+    | .gen => .ok opaqueText
+    | .refl _ => .ok opaqueText
+    | .opq => .ok opaqueText
+    | .ostr => .ok opaqueText
     | _ => .error (scope "repr of builtin/float")
   def cvReprList : List CV → Except Exc (List String)
     | [] => .ok []
@@ -455,13 +499,65 @@ def allDigits (s : String) : Bool := !s.isEmpty && s.toList.all Char.isDigit
 /-- value of a string of ASCII digits (used only under `allDigits`) -/
 def digitsToNat (s : String) : Nat := s.toList.foldl (fun a c => a * 10 + (c.toNat - '0'.toNat)) 0
 
-/-- host-internal getattr during field traversal: recorded in the host state when the object is a sentinel -/
+/-! #### reflective objects: public attribute tables of CPython 3.12 -/
+
+/-- `getattr(<fresh generator>, n)` -/
+def genAttr (n : String) : Except Exc CV :=
+  if n == "gi_frame" then .ok (.refl .frame)
+  else if n == "gi_code" then .ok (.refl .code)
+  else if n == "gi_running" || n == "gi_suspended" then .ok (.bool false)
+  else if n == "gi_yieldfrom" then .ok .none
+  else if n == "close" || n == "send" || n == "throw" then .ok .opq
+  else .error "AttributeError"
+
+/-- `getattr(<frame of a fresh generator>, n)` -/
+def frameAttr (n : String) : Except Exc CV :=
+  if n == "f_globals" then .ok (.refl (.ns .globals))
+  else if n == "f_locals" then .ok (.refl (.ns .locals))
+  else if n == "f_builtins" then .ok (.refl (.ns .builtins))
+  else if n == "f_code" then .ok (.refl .code)
+  else if n == "f_back" || n == "f_trace" then .ok .none
+  else if n == "f_trace_lines" then .ok (.bool true)
+  else if n == "f_trace_opcodes" then .ok (.bool false)
+  else if n == "f_lasti" || n == "f_lineno" || n == "clear" then .ok .opq
+  else .error "AttributeError"
+
+def codeAttrNames : List String :=
+  ["co_argcount", "co_cellvars", "co_code", "co_consts", "co_exceptiontable", "co_filename", "co_firstlineno",
+   "co_flags", "co_freevars", "co_kwonlyargcount", "co_lines", "co_linetable", "co_lnotab", "co_name", "co_names",
+   "co_nlocals", "co_positions", "co_posonlyargcount", "co_qualname", "co_stacksize", "co_varnames", "replace"]
+
+/-- `getattr(<code object>, n)` -/
+def codeAttr (n : String) : Except Exc CV :=
+  if codeAttrNames.contains n then .ok .opq else .error "AttributeError"
+
+def NsDesc.keys (nd : NsDesc) : NsKind → List String
+  | .globals => nd.globals
+  | .locals => nd.locals
+  | .builtins => nd.builtins
+
+/-- `ns[key]` for a namespace dict of the frame (all keys are strings) -/
+def nsIndex (d : HostDesc) (w : NsKind) (key : CV) : Except Exc CV :=
+  match key with
+  | .str k =>
+    if (d.ns.keys w).contains k then
+      (if w == .globals && k == "__builtins__" && d.ns.gbIsBuiltins then .ok (.refl (.ns .builtins)) else .ok .opq)
+    else .error "KeyError"
+  | _ => .error "KeyError"
+
+/-- host-internal getattr during field traversal: recorded in the host state when the object is a sentinel
+    (under its id) or a reflective object (under id 0; sentinel ids start at 1) -/
 def hostGetattr (d : HostDesc) (o : CV) (name : String) (st : CState) : Except Exc CV × CState :=
   match o with
   | .sent id => (cvGetattr d o name, st ++ [(id, name)])
+  | .gen => (genAttr name, st ++ [(0, name)])
+  | .refl .frame => (frameAttr name, st ++ [(0, name)])
+  | .refl .code => (codeAttr name, st ++ [(0, name)])
   | .float _ => (.error (scope "float"), st)
-  -- attributes that exist on other values (`{0.real}`, `{0.__class__}`) are outside the host; the harness
-  -- does not ship such cases, every other name is an AttributeError
+  | .opq => (.error (scope "attribute of an undescribed object"), st)
+  | .ostr => (.error (scope "attribute of an unpredicted str"), st)
+  -- attributes that exist on other values (`{0.real}`, `{0.__class__}`, `{0.gi_frame.f_globals.keys}`) are outside the
+  -- host; the harness does not ship such cases, every other name is an AttributeError
   | _ => (.error "AttributeError", st)
 
 def walkPath (d : HostDesc) : List FStep → CV → CState → Except Exc CV × CState
@@ -472,7 +568,12 @@ def walkPath (d : HostDesc) : List FStep → CV → CState → Except Exc CV × 
     | (.error e, st') => (.error e, st')
   | .idx k :: rest, o, st =>
     let key : CV := if allDigits k then .int (digitsToNat k) else .str k
-    match cvGetitem o key with
+    -- index steps are NOT vetted by `_SafeFormatter.get_field`: `[__builtins__]`, `[_private_global]` pass
+    let r : Except Exc CV := match o with
+      | .refl (.ns w) => nsIndex d w key
+      | .opq => .error (scope "index of an undescribed object")
+      | _ => cvGetitem o key
+    match r with
     | .ok v => walkPath d rest v st
     | .error e => (.error e, st)
 
@@ -584,6 +685,8 @@ def applySpec (o : CV) (spec : String) : Except Exc String :=
       | .dict _ => .error "TypeError"
       | .sent _ => .error "TypeError"
       | .smeth _ _ => .error "TypeError"
+      | .gen => .error "TypeError"         -- object.__format__ with a non-empty spec
+      | .refl _ => .error "TypeError"      -- frame / code: object.__format__; namespaces: dict.__format__
       | _ => .error (scope "format spec on bool/opaque")
 
 /-- `string.Formatter._vformat` over the top-level pieces. -/
@@ -614,7 +717,7 @@ def doFormat (safe : Bool) (d : HostDesc) (fmt : String) (args : List CV) (mappi
   | Option.none => (.error (scope "format string"), st)
   | some ps =>
     match renderPieces safe d args mapping ps (some 0) st with
-    | (.ok s, st') => (.ok (.str s), st')
+    | (.ok s, st') => (.ok (if s.toList.contains opaqueMark then .ostr else .str s), st')
     | (.error e, st') => (.error e, st')
 
 /-! ### calls -/
@@ -673,6 +776,11 @@ def cvCall (safe : Bool) (d : HostDesc) (a b : CV) (st : CState) : Except Exc CV
 
 def pureOp {α : Type} (r : Except Exc α) : HRes CState α := fun st => (r, st)
 
+/-- the evaluator-issued `getattr(a, n)` (from `get_member`): like format traversal, a read on a sentinel is recorded
+    in the host state -/
+def evalGetattr (d : HostDesc) (a : CV) (n : String) : HRes CState CV := fun st =>
+  (cvGetattr d a n, match a with | .sent id => st ++ [(id, n)] | _ => st)
+
 /-- `safe = true` is the current code; `safe = false` is a formatter WITHOUT the underscore refusal of
     `_SafeFormatter.get_field` (the pre-fix behaviour of `str.format`), kept for the witness in Props/C19. -/
 def concreteHostWith (safe : Bool) (d : HostDesc) : Host CState CV where
@@ -681,7 +789,7 @@ def concreteHostWith (safe : Bool) (d : HostDesc) : Host CState CV where
   ofStr := CV.str
   ofBool := CV.bool
   mkColl := fun c xs => match c with | .tuple => CV.tuple xs | .list => CV.list xs
-  getattr := fun a n => pureOp (cvGetattr d a n)
+  getattr := evalGetattr d
   call := cvCall safe d
   getitem := fun a b => pureOp (cvGetitem a b)
   neg := fun a => pureOp (cvNeg a)
@@ -689,7 +797,7 @@ def concreteHostWith (safe : Bool) (d : HostDesc) : Host CState CV where
   binop := fun s a b => pureOp (cvBinop s a b)
   truth := fun a => pureOp (cvTruth a)
   fmt := fun _ => pureOp (.ok ())   -- str() of a value of this host never raises
-  isReflective := fun a => match a with | .gen => true | _ => false
+  isReflective := fun a => match a with | .gen => true | .refl .frame => true | .refl .code => true | _ => false
   isStrType := fun a => match a with | .builtin "str" => true | _ => false
   isStrInst := fun a => match a with | .str _ => true | _ => false
   safeFn := CV.strfn
@@ -724,6 +832,8 @@ partial def cvOfJson (j : Json) : Except String CV := do
   | "bi" => return .builtin (← (arg 1).getStr?)
   | "f" => return .float (← (arg 1).getStr?)
   | "gen" => return .gen
+  | "o?" => return .opq
+  | "s?" => return .ostr
   | t => throw s!"bad value tag {t}"
 
 partial def cvToJson : CV → Json
@@ -741,6 +851,11 @@ partial def cvToJson : CV → Json
   | .builtin n => Json.arr #[Json.str "bi", Json.str n]
   | .float r => Json.arr #[Json.str "f", Json.str r]
   | .gen => Json.arr #[Json.str "gen"]
+  | .refl .frame => Json.arr #[Json.str "refl", Json.str "frame"]
+  | .refl .code => Json.arr #[Json.str "refl", Json.str "code"]
+  | .refl (.ns _) => Json.arr #[Json.str "refl", Json.str "ns"]
+  | .opq => Json.arr #[Json.str "o?"]
+  | .ostr => Json.arr #[Json.str "s?"]
 
 def lookupOp (name : String) : Option OpSpec := opTable.find? (·.name == name)
 
@@ -801,13 +916,27 @@ def sentOfJson (j : Json) : Except String SentDesc := do
   let meths ← pairsOfJson mkindOfJson (← j.getObjVal? "meths")
   return { id := id, attrs := attrs, meths := meths }
 
-/-- Stream `expr`. Input: {"tokens": […], "locals": [[name, value]…], "sentinels": […]}.  Globals are the
-    generated `defaultGlobals` names bound to opaque builtins. -/
+def strListOfJson (j : Json) : Except String (List String) := do
+  (← j.getArr?).toList.mapM fun x => x.getStr?
+
+/-- optional `"refl": {"g": [keys of f_globals], "l": […f_locals], "b": […f_builtins], "gb": bool}` -/
+def nsOfJson (j : Json) : Except String NsDesc :=
+  match j.getObjVal? "refl" with
+  | .error _ => pure {}
+  | .ok r => do
+    let g ← strListOfJson (← r.getObjVal? "g")
+    let l ← strListOfJson (← r.getObjVal? "l")
+    let b ← strListOfJson (← r.getObjVal? "b")
+    let gb ← (← r.getObjVal? "gb").getBool?
+    pure { globals := g, locals := l, builtins := b, gbIsBuiltins := gb }
+
+/-- Stream `expr`. Input: {"tokens": […], "locals": [[name, value]…], "sentinels": […], "refl"?: {…}}.  Globals are
+    the generated `defaultGlobals` names bound to opaque builtins. -/
 def exprHandler : Handler := fun j => do
   let toks ← (← getArr j "tokens").toList.mapM tokOfJson
   let locals ← pairsOfJson cvOfJson (← j.getObjVal? "locals")
   let sents ← (← getArr j "sentinels").toList.mapM sentOfJson
-  let d : HostDesc := { sents := sents }
+  let d : HostDesc := { sents := sents, ns := (← nsOfJson j) }
   let globals : Env CV := defaultGlobals.map fun n => (n, CV.builtin n)
   let r := eval (concreteHost d) locals globals toks []
   let res : Json := match r.1 with
